@@ -61,6 +61,7 @@ def omni(ctx, quick_n=1500, thorough_n=20000, offset=0, altreprs=0):
     cases = ctx.gen("omni", quick_n if ctx.quick else thorough_n, seed_offset=1000 * offset)
     for c in cases:
         c["id"] = "omni%d-%s" % (offset, c["id"])
+        c["snaploops"] = True             # C12: the harness's probe tag around every loop (same value bound before and after)
         if altreprs:
             c["altreprs"] = altreprs      # C18: the same bindings in other Go representations must render the same
     ctx.validate(ctx.run_cases(cases))
@@ -229,6 +230,7 @@ def check_C13(ctx):
     for g in gen:
         g["tm"] = "TraceC13"
     validate_by_module(ctx, ctx.run_cases(gen))
+    omni(ctx, offset=13)
     ctx.exhaustive = False
     return finish(ctx, rule="MC_C13: every flat sequence of <= %s elements (6 texts, 3 objects and an assign with all hyphen "
                             "combinations) and 7 block skeletons x hyphen subsets x rotating texts, explored on the trim-writer "
@@ -406,7 +408,7 @@ def check_C07(ctx):
 # --------------------------------------------------------------------------- C14
 
 def check_C14(ctx):
-    cases, _ = ctx.tlc_mc("MC_C14", mc_cfg({}, ["Decided", "IncludeIsInlining", "NestedAndLoop", "FailuresFail", "IncluderEnvKept",
+    cases, _ = ctx.tlc_mc("MC_C14", mc_cfg({}, ["Decided", "IncludeIsInlining", "NestedAndLoop", "EmptyIsIncluded", "FailuresFail", "IncluderEnvKept",
                                                  "EmitCase"]))
     ctx.validate(ctx.run_cases(cases))
     return finish(ctx, rule="MC_C14: includer depth 0-2 x target in the same directory / below x argument as literal, variable, "
